@@ -67,6 +67,26 @@ def occurs_with_default_header_options(v, job):
     return any(not ((set(on) | preset_on) & set(HEADER_OPTS)) for on in ons)
 
 
+LENIENT_HEADER_OPTIONS = ("ignore_invalid_headers_in_requests", "ignore_invalid_headers_in_responses", "allow_obsolete_multiline_headers_in_responses",
+                          "allow_spaces_after_header_name_in_responses", "allow_space_before_first_header_name")
+
+
+def unanalysable_concerns(pid, u, job):
+    """Whether a construct outside the modelled fragment leaves property `pid` undecided.  Everything
+    downstream of the construct is unexplored; what was decided before it stays decided:
+    the start-line grammars when the construct is only met in the header phase, the strict header
+    grammar when it is only met with a lenient header option switched on."""
+    phases = u.get("phases")
+    if pid in ("C06", "C07") and phases and all(p == "headers" for p in phases):
+        return False
+    if pid == "C08":
+        opts = u.get("options")
+        preset_on = [k[4:] for k, val in (job.get("preset") or {}).items() if val]
+        if opts and all(any(o in LENIENT_HEADER_OPTIONS for o in list(on) + preset_on) for on in opts):
+            return False
+    return True
+
+
 def properties_of(v, job, default_keys=None):
     """Which properties a recorded violation belongs to.  default_keys: deviations (kind, rule,
     normalised detail) known to occur with every header option off, in any job."""
@@ -218,6 +238,8 @@ class Check:
             for u in res.get("unanalysable", []):
                 if job["kind"] == "scanner" and pid not in ("C01", "C12", "C13", "C20"):
                     continue  # a scanner body outside the model: the scanner properties fail closed
+                if not unanalysable_concerns(pid, u, job):
+                    continue
                 key = "unanalysable:%s|%s|%s" % (u["what"], job["root"], strip_lines(u["where"]))
                 self.violation(key, {"rule": "unanalysable:" + u["what"], "job": job, "where": u["where"], "stack": u.get("stack"), "path": u.get("path"),
                                      "note": "construct outside the modelled fragment: the check fails closed"})
